@@ -26,6 +26,26 @@ def cfg_key(cfg):
     return json.dumps([cfg[k] for k in CFG_KEYS])
 
 
+_COUNTING = {}
+
+
+def counting(cls):
+    """problem class that counts the calls of eval_f itself (independently of the library's work counters)"""
+    if cls not in _COUNTING:
+        class Counting(cls):
+            _verif_rhs_calls = 0  # instance attribute after the first call
+
+            def eval_f(self, *a, **k):
+                self._verif_rhs_calls = getattr(self, '_verif_rhs_calls', 0) + 1
+                return super().eval_f(*a, **k)
+
+        Counting.__name__ = cls.__name__
+        Counting.__qualname__ = cls.__qualname__
+        Counting.__module__ = cls.__module__
+        _COUNTING[cls] = Counting
+    return _COUNTING[cls]
+
+
 def build(cfg):
     """description + controller params of a real pySDC run realising a model configuration"""
     from pySDC.implementations.problem_classes.TestEquation_0D import testequation0d
@@ -89,7 +109,9 @@ def build(cfg):
             desc['space_transfer_params'] = dict(rorder=2, iorder=2)
         else:
             desc['space_transfer_class'] = IdentitySpaceTransfer
-    hooks = [LogSolution, LogStepSize]
+    from pySDC.implementations.hooks.log_work import LogWork, LogSDCIterations
+    hooks = [LogSolution, LogStepSize, LogWork, LogSDCIterations]
+    desc['problem_class'] = counting(desc['problem_class'])
     if cfg.get('log_iter'):
         from pySDC.implementations.hooks.log_solution import LogSolutionAfterIteration
         hooks = [LogSolutionAfterIteration] + hooks
